@@ -170,6 +170,15 @@ CoTop(case, ch, dest, insts) ==
       Sec(t) == CoRaw(case, t.ch, WithGlobals(Sub(v1, <<t.n>>), v1))
   IN Without(v1, {t.n : t \in Range(insts)}) \cup UNION {Put(<<t.n>>, Sec(t)) : t \in Range(insts)}
 
+\* Chart names may contain dots (aliases may not: chart.Dependency validation).  A values KEY is the whole name (coalesceDeps, recAllTpls index the table by
+\* the name), but a condition PATH is a dotted string that Values.PathValue splits on every dot - so is the prefix
+\* "<name>." that processDependencyEnabled puts before the condition paths of the charts below.  The dotted names of
+\* the case space and their splittings:
+DotSplit == ("my.sub" :> <<"my", "sub">>)
+RECURSIVE PathKeys(_)
+PathKeys(P) == IF P = <<>> THEN <<>>
+               ELSE (IF P[1] \in DOMAIN DotSplit THEN DotSplit[P[1]] ELSE <<P[1]>>) \o PathKeys(Tail(P))
+
 \* processDependencyTags: r.Enabled after the tags pass (it starts as TRUE)
 TagDecision(d, cv) ==
   IF ~(HasNode(cv, <<"tags">>) /\ TableAt(cv, <<"tags">>)) THEN TRUE
@@ -198,7 +207,7 @@ EnFold(case, P, rp, on, k, cv, acc) ==
 EnWalk(case, P, rp, ch, v, M) ==
   LET insts == InstSeq(case, ch, rp \in M)
       cv    == CoTop(case, ch, v, insts)
-      on    == SelectSeq(insts, LAMBDA t : CondDecision(t, cv, P, TagDecision(t, cv)))
+      on    == SelectSeq(insts, LAMBDA t : CondDecision(t, cv, PathKeys(P), TagDecision(t, cv)))
   IN EnFold(case, P, rp, on, 1, cv, [en |-> {}, m |-> M \cup {rp}])
 
 EnabledCode(case) == {<<>>} \cup EnWalk(case, <<>>, <<>>, RootChart, UserVals(case), {}).en
